@@ -10,7 +10,7 @@ that are never checked).
 """
 import re
 
-from vlib.mir import Fn, op_local, op_place
+from vlib.mir import Fn, op_local, op_place, op_const
 from rules.pair import err_blocks
 
 W = {"u8": 8, "u16": 16, "u32": 32, "u64": 64, "usize": 64, "i8": 8, "i16": 16, "i32": 32, "i64": 64, "isize": 64,
@@ -184,3 +184,43 @@ def packed_value_checked(ctx, fx, fid, callee_rx, value_name="value", rule="R-WI
                           fn.file, c["ln"])
     ctx.instance(rule + ".sites", n)
     return n
+
+
+# ------------------------------------------------------------------ R-PAIRACCESS
+def pair_accessor(ctx, fx, fid, rule="R-PAIRACCESS"):
+    """`get2(i)` returns elements i and i+1 of a block-compressed vector. The neighbour may live in the next block, so
+    its position has to be computed from i+1 as a whole: some call of the accessor (element getter, sample getter,
+    delta getter) receives a value derived from `index + 1`. An accessor that derives block and offset from `index`
+    only and reads "the next delta" mixes the neighbour's delta with the wrong block base at every block boundary."""
+    fn = Fn(fx.raw(fid))
+    idx = [i for i in range(1, fn.nargs + 1) if fn.ty(i) == "usize"]
+    plus1 = set()
+    for loc, st in fn.iter_locs():
+        if st[0] == "a" and st[2][0] in ("bin", "checked") and len(st[1]) == 1:
+            rv = st[2]
+            opn, x, y = rv[1], rv[2], rv[3]
+            if opn in ("Add", "AddWithOverflow", "AddUnchecked"):
+                for a, b in ((x, y), (y, x)):
+                    k = op_const(b)
+                    if k is not None and k[0] == 1 and op_local(a) is not None and (op_local(a) in idx or
+                                                                                    any(op_local(a) in same_value(fn, i) for i in idx)):
+                        plus1.add(st[1][0])
+    fw = (fn.forward_locals(plus1) | plus1) if plus1 else set()
+    used = None
+    for b, c in fn.calls():
+        if c["f"].rsplit("::", 1)[-1] in ("from_residual", "branch", "invalid_data", "panic_bounds_check"):
+            continue
+        if any(op_local(a) in fw for a in c["a"] if op_local(a) is not None and fn.ty(op_local(a)) in ("usize", "u64", "u32")):
+            used = (c["f"], c["ln"])
+            break
+    ctx.analysed_fns.add(fid)
+    ok = used is not None
+    ctx.obligation(rule, fid, "neighbour located from index + 1", ok,
+                   sample={"fn": fid, "index_plus_one_locals": len(plus1), "consumer": used})
+    if not ok:
+        ctx.violation(rule, fid, "neighbour not located from index + 1",
+                      "%s never hands a value derived from `index + 1` to an accessor: the second element is read relative to the "
+                      "first element's block, which is the wrong base whenever the pair straddles a block boundary"
+                      % fid.rsplit("::", 1)[-1], fn.file, fn.line)
+    ctx.instance(rule + ".accessors", 1)
+    return 1
